@@ -57,7 +57,7 @@ def write_json(path, obj):
   os.replace(tmp, path)
 
 
-def run_native(driver, payload, timeout=600):
+def run_native(driver, payload, timeout=240):
   """Runs a replay driver under the repo's interpreter.  Returns dict."""
   env = dict(os.environ)
   env['PYTHONPATH'] = REPO + os.pathsep + VERIF
